@@ -673,6 +673,10 @@ namespace Pistache::Http::Experimental
 
     void Connection::handleError(const char* error)
     {
+        // whatever was received of the failed exchange must not be taken for
+        // the beginning of the next response on this connection
+        parser.reset();
+
         if (requestEntry)
         {
             if (requestEntry->timer)
@@ -694,6 +698,8 @@ namespace Pistache::Http::Experimental
 
     void Connection::handleTimeout()
     {
+        parser.reset();
+
         if (requestEntry)
         {
             requestEntry->timer->disarm();
